@@ -123,6 +123,29 @@ def _decode_stub(encoded):
 
 
 ayy._decode_metadata = _decode_stub
+_orig_encode = ayy._encode_metadata
+
+
+def _encode_stub(metadata):
+    """dump side of the codec stub: under the tracer the (possibly symbolic) metadata dict is parked in the
+    site table and a token is emitted instead of pickle.dumps(..).hex() (a C boundary that would realise it)"""
+    if is_tracing():
+        kw = {}
+        user = {}
+        for k, v in metadata.items():
+            if k in ConfigNode.special_metadata_names:
+                kw[k] = v
+            else:
+                user[k] = v
+        if user:
+            kw['metadata'] = user
+        key = 's%d_enc' % len(SITES)
+        SITES[key] = kw
+        return key
+    return _orig_encode(metadata)
+
+
+ayy._encode_metadata = _encode_stub
 
 
 def site(name, flags, metadata=None):
@@ -244,3 +267,24 @@ def known(fid):
         wit('known:' + fid)
         return True
     return False
+
+
+def same_dump(t1, t2):
+    """textual equality of two dumps modulo the names of codec-stub tokens (under the tracer every encoded
+    metadata dict gets a fresh token name; natively both texts hold pickle hex and are compared verbatim)"""
+    import re
+    pat = re.compile(r'(s\d+_[A-Za-z0-9]+)')
+    p1, p2 = pat.split(t1), pat.split(t2)
+    if len(p1) != len(p2):
+        return False
+    for i, (a, b) in enumerate(zip(p1, p2)):
+        if i % 2 == 0:
+            if a != b:
+                return False
+        else:
+            if a in SITES and b in SITES:
+                if SITES[a] != SITES[b]:
+                    return False
+            elif a != b:
+                return False
+    return True
